@@ -75,7 +75,8 @@ def run_variant(variant, expr, env):
 # {{{ memory layouts of object arrays
 
 ARRAY_LAYOUTS = ("c", "transposed", "fortran", "every-second-row", "reversed-columns",
-                 "3d-transposed", "broadcast-view", "1d-reversed")
+                 "3d-transposed", "broadcast-view", "1d-reversed", "sequence-valued-entries",
+                 "array-valued-entries")
 
 
 def layout_failure(kind, variant):
@@ -89,7 +90,21 @@ def layout_failure(kind, variant):
     base = np.empty((2, 4), dtype=object)
     for k, e in enumerate(elems):
         base[k // 4, k % 4] = e
+    def seq_entries():
+        a = np.empty((2,), dtype=object)
+        a[0] = (x, y)
+        a[1] = (p.Sum((x, 1)), p.Product((2, y)))
+        return a
+
+    def arr_entries():
+        a = np.empty((2, 2), dtype=object)
+        inner = np.empty((2,), dtype=object)
+        inner[0], inner[1] = x, p.Sum((x, y))
+        a[0, 0], a[0, 1], a[1, 0], a[1, 1] = inner, y, [x, y], 3
+        return a
     arr = {
+        "sequence-valued-entries": seq_entries,
+        "array-valued-entries": arr_entries,
         "c": lambda: base,
         "transposed": lambda: base.T,
         "fortran": lambda: np.asfortranarray(base),
@@ -110,11 +125,16 @@ def layout_failure(kind, variant):
     if not isinstance(got, np.ndarray) or got.shape != arr.shape:
         return ("array-layout", f"{kind} view of shape {arr.shape}: result is "
                 f"{type(got).__name__} of shape {getattr(got, 'shape', None)}")
-    from pymbolic.mapper.evaluator import evaluate
+    def same(a, b):
+        if isinstance(a, np.ndarray) or isinstance(b, np.ndarray):
+            return isinstance(a, np.ndarray) and isinstance(b, np.ndarray) and \
+                a.shape == b.shape and all(same(a[i], b[i]) for i in np.ndindex(a.shape))
+        if isinstance(a, (tuple, list)) or isinstance(b, (tuple, list)):
+            return type(a) is type(b) and len(a) == len(b) and all(map(same, a, b))
+        return a is not None and a == b
     for idx in np.ndindex(arr.shape):
-        want = arr[idx] if not isinstance(arr[idx], p.Expression) else \
-            refsem.evaluate(to_spec(arr[idx]), dict(env))
-        if got[idx] is None or got[idx] != want:
+        want = refsem.evaluate(to_spec(arr[idx]), dict(env))
+        if not same(got[idx], want):
             return ("array-layout", f"{kind} view of shape {arr.shape}: element {idx} is "
                     f"{got[idx]!r}, expected {want!r}")
     return None
